@@ -853,16 +853,22 @@ func isMarkdownEndURL(s []byte) bool {
 		c == '\'' || c == '"' || c == '~'
 }
 
+// isEndTagNameEnd reports whether c, the byte that follows the name in an
+// end tag, ends the tag name as it does for an HTML tokenizer.
+func isEndTagNameEnd(c byte) bool {
+	return c == '>' || c == '/' || isASCIISpace(c)
+}
+
 // isEndStyle reports whether s is the start or end of "style" tag.
 func isEndStyle(s []byte) bool {
-	return len(s) >= 8 && s[0] == '<' && s[1] == '/' && (s[7] == '>' || isSpace(s[7])) &&
+	return len(s) >= 8 && s[0] == '<' && s[1] == '/' && isEndTagNameEnd(s[7]) &&
 		(s[2] == 's' || s[2] == 'S') && (s[3] == 't' || s[3] == 'T') && (s[4] == 'y' || s[4] == 'Y') &&
 		(s[5] == 'l' || s[5] == 'L') && (s[6] == 'e' || s[6] == 'E')
 }
 
 // isEndScript reports whether s is the start or end of "script" tag.
 func isEndScript(s []byte) bool {
-	return len(s) >= 9 && s[0] == '<' && s[1] == '/' && (s[8] == '>' || isSpace(s[8])) &&
+	return len(s) >= 9 && s[0] == '<' && s[1] == '/' && isEndTagNameEnd(s[8]) &&
 		(s[2] == 's' || s[2] == 'S') && (s[3] == 'c' || s[3] == 'C') && (s[4] == 'r' || s[4] == 'R') &&
 		(s[5] == 'i' || s[5] == 'I') && (s[6] == 'p' || s[6] == 'P') && (s[7] == 't' || s[7] == 'T')
 }
